@@ -6,6 +6,7 @@ package parser
 import (
 	"bufio"
 	"bytes"
+	"maps"
 	"regexp"
 	"sort"
 	"strings"
@@ -95,7 +96,9 @@ func replaceSuffixes(inputLines *bytes.Buffer, suffixReplacements map[string]str
 func removeExclusions(parser *Parser, excludeFileNames []string, includeMap map[string]inclusionLine, definitions map[string]string) {
 	for _, fileName := range excludeFileNames {
 		logger.Debug().Msgf("Processing exclusions from %s", fileName)
-		excludeContent, _ := parseFile(parser, fileName, definitions)
+		// every exclude file gets its own copy of the include file's definitions:
+		// the parser adds the file's own definitions to the map it is given
+		excludeContent, _ := parseFile(parser, fileName, maps.Clone(definitions))
 		scanner := bufio.NewScanner(excludeContent)
 		scanner.Split(bufio.ScanLines)
 		for scanner.Scan() {
